@@ -133,6 +133,52 @@ def implementation_specific_models() -> List[Tuple[str, str]]:
     return out
 
 
+SMALL_VALID = (
+    'class Something:\n    """Represent something."""\n\n    val: str\n    """Hold a value."""\n\n'
+    "    def __init__(self, val: str) -> None:\n        self.val = val\n" + SPECIFIC_TAIL
+)
+
+
+def deep_models() -> List[Tuple[str, str]]:
+    """Seed independent: invariants nested around the depths where the front end still succeeds but a later stage (inference,
+    C# generation) may run out of stack: whatever happens, smoke ends with 0 or with 1 and a report."""
+    out = []
+    for depth in list(range(120, 340, 15)) + [500, 1200]:
+        inv = "not (" * depth + "len(self.val) > 0" + ")" * depth
+        out.append((f"deep_not_{depth}", f'@invariant(lambda self: {inv}, "Val is fine.")\n' + SMALL_VALID))
+    for terms in (150, 400, 1200):
+        inv = " + ".join(["len(self.val)"] * terms) + " > 0"
+        out.append((f"deep_sum_{terms}", f'@invariant(lambda self: {inv}, "Val is fine.")\n' + SMALL_VALID))
+    return out
+
+
+def byte_variants() -> List[Tuple[str, bytes]]:
+    """Seed independent: one small valid model as bytes in every way a file can differ from plain UTF-8 with LF: the smoke
+    tool must see the file as the front end of the generators (run.load_model) sees it."""
+    t = SMALL_VALID
+    b = t.encode("utf-8")
+    return [
+        ("bytes_plain", b),
+        ("bytes_utf8_bom", b"\xef\xbb\xbf" + b),
+        ("bytes_utf8_bom_twice", b"\xef\xbb\xbf\xef\xbb\xbf" + b),
+        ("bytes_utf16_bom", t.encode("utf-16")),
+        ("bytes_utf16_le", t.encode("utf-16-le")),
+        ("bytes_utf32", t.encode("utf-32")),
+        ("bytes_crlf", t.replace("\n", "\r\n").encode("utf-8")),
+        ("bytes_cr", t.replace("\n", "\r").encode("utf-8")),
+        ("bytes_latin1_in_docstring", t.replace("something.", "som\u00e9thing.").encode("latin-1")),
+        ("bytes_utf8_in_docstring", t.replace("something.", "som\u00e9thing \U0001f600.").encode("utf-8")),
+        ("bytes_coding_cookie_latin1", b"# -*- coding: latin-1 -*-\n" + t.replace("something.", "som\u00e9thing.").encode("latin-1")),
+        ("bytes_nul_at_end", b + b"\x00"),
+        ("bytes_nul_inside", b.replace(b"Hold", b"Ho\x00ld")),
+        ("bytes_form_feed_first", b"\x0c\n" + b),
+        ("bytes_ctrl_z_at_end", b + b"\x1a"),
+        ("bytes_lone_surrogate_utf8", t.replace("something.", "something \ud800.").encode("utf-8", "surrogatepass")),
+        ("bytes_no_final_newline", b.rstrip(b"\n")),
+        ("bytes_trailing_spaces_and_tabs", b + b" \t \n\t"),
+    ]
+
+
 def models(ctx: Ctx, scratch: pathlib.Path) -> Iterator[Tuple[str, pathlib.Path]]:
     td = REPO / "dev" / "test_data"
     for c in corpus(ID):
@@ -162,10 +208,14 @@ def models(ctx: Ctx, scratch: pathlib.Path) -> Iterator[Tuple[str, pathlib.Path]
         ("syntax_error", "class A(:\n"),
         ("empty", ""),
         ("import_os", "import os\n__version__='1'\n__xml_namespace__='https://x.com'\n"),
-    ] + implementation_specific_models():
+    ] + implementation_specific_models() + deep_models():
         p = scratch / (name + ".py")
         p.write_text(text)
         yield "synthetic", p
+    for name, data in byte_variants():
+        p = scratch / (name + ".py")
+        p.write_bytes(data)
+        yield "bytes", p
 
 
 def _run(ctx: Ctx, with_model: bool) -> None:
@@ -184,9 +234,18 @@ def _run(ctx: Ctx, with_model: bool) -> None:
         ctx.hit("first-failing:" + str(sep["first_failing"]))
         if k % 20 == 0:
             ctx.sample({"model": key, "smoke_rc": sm["rc"], "first_failing_stage": sep["first_failing"], "stderr": sm["stderr"][:160]})
-        if sm["exc"] is not None or sep["exc"] is not None:
-            # crashes are the subject of C01/C02; C28 talks about completed runs
-            ctx.hit("crash")
+        if sm["exc"] is not None:
+            # a run which ends in a traceback has neither of the two outcomes the statement allows (0, or 1 with a report)
+            ctx.hit("smoke-raises")
+            ctx.fail({"model": key}, f"smoke raised {sm['exc']} instead of exiting with 0 or with 1 and a report", "C28:smoke-raises:" + str(sm["exc"]).split(":")[-1])
+            continue
+        if sep["exc"] is not None:
+            # a stage which raises when run on its own has failed: smoke must not exit 0 (it may report it as it likes)
+            ctx.hit("stage-raises")
+            if sm["rc"] == 0:
+                ctx.fail({"model": key}, f"smoke exits 0 although a stage run on its own raises {sep['exc']}", "C28:rc0-but-stage-raises")
+            if sm["rc"] == 1 and not report_shape_ok(sm["stderr"]):
+                ctx.fail({"model": key}, f"smoke exits 1 without a proper report: {sm['stderr'][:200]!r}", "C28:no-report")
             continue
         reported = next((st for h, st in HEADLINE_TO_STAGE if sm["stderr"].startswith(h)), None)
         if with_model:
@@ -243,7 +302,12 @@ def replay(ctx: Ctx, data: Dict[str, Any]) -> Any:
         # a corpus or synthetic model: recorded by the name of its file
         scratch = ctx.scratch()
         texts = {c["name"] + ".py": c["text"] for c in corpus(ID)}
-        texts.update({name + ".py": text for name, text in implementation_specific_models()})
+        texts.update({name + ".py": text for name, text in implementation_specific_models() + deep_models()})
+        blobs = {name + ".py": data for name, data in byte_variants()}
+        if inp["model"] in blobs:
+            p = scratch / inp["model"]
+            p.write_bytes(blobs[inp["model"]])
+            return {"smoke": run_smoke(p), "stages": stages_separately(p)}
         if "text" in inp:
             texts[inp["model"]] = inp["text"]
         if inp["model"] not in texts:
